@@ -354,17 +354,23 @@ func (fx *respFixture) judge(s *Scenario, failed bool, st *RespStats, report fun
 	case "duplicate-output":
 		st.MustDup++
 		if !failed {
-			report("duplicate-output/undetected/"+s.OutClass, "two plugins produced the same output path and no error was reported")
+			// the out class is only kept where it names a different defect: the validator never sees that a relative
+			// and an absolute spelling are one directory, every other configuration is caught by the same comparison
+			class := "same-base-out"
+			if s.OutClass == "relative-vs-absolute-out" {
+				class = s.OutClass
+			}
+			report("duplicate-output/undetected/"+class, "two plugins produced the same output path and no error was reported")
 		}
 	case "insertion-previous-run":
 		st.MustInsPrev++
 		if !failed {
-			report("insertion/into-file-of-previous-run/accepted/"+s.OutClass, "an insertion point into a file that exists on disk but was not produced in this run was accepted")
+			report("insertion/into-file-of-previous-run/accepted", "an insertion point into a file that exists on disk but was not produced in this run was accepted")
 		}
 	case "insertion-absent":
 		st.MustInsAbsent++
 		if !failed {
-			report("insertion/into-file-not-produced/accepted/"+s.OutClass, "an insertion point into a file that no plugin produced in this run was accepted")
+			report("insertion/into-file-not-produced/accepted", "an insertion point into a file that no plugin produced in this run was accepted")
 		}
 	}
 	ok := true
@@ -375,7 +381,7 @@ func (fx *respFixture) judge(s *Scenario, failed bool, st *RespStats, report fun
 		return false
 	}
 	if d := diffSnap(fx.outside, after); d != "" {
-		report("containment/outside-out-dir-changed/"+s.Kind, "files outside every plugin's output location changed: "+strings.ReplaceAll(d, fx.root, "<root>"))
+		report("containment/outside-out-dir-changed", "files outside every plugin's output location changed: "+strings.ReplaceAll(d, fx.root, "<root>"))
 		ok = false
 	}
 	// S2: content of a plugin only beneath that plugin's out; S3: files of a previous run untouched
@@ -396,7 +402,7 @@ func (fx *respFixture) judge(s *Scenario, failed bool, st *RespStats, report fun
 			}
 			o := outAbs(fx.base, pl.Out)
 			if !(p == o && isArchive(o)) && !strings.HasPrefix(p, o+"/") {
-				report("containment/content-outside-own-out-dir/"+s.OutClass, fmt.Sprintf("content of plugin %s (out %s) was written to %s", pl.ID, pl.Out, strings.ReplaceAll(p, fx.root, "<root>")))
+				report("containment/content-outside-own-out-dir", fmt.Sprintf("content of plugin %s (out %s) was written to %s", pl.ID, pl.Out, strings.ReplaceAll(p, fx.root, "<root>")))
 			}
 		}
 	}
@@ -407,7 +413,7 @@ func (fx *respFixture) judge(s *Scenario, failed bool, st *RespStats, report fun
 		}
 		// only a modification in place counts (a plain output replacing the file is not an insertion)
 		if got, exists := all[p]; exists && got != content && strings.Contains(got, "PREVIOUS-RUN") {
-			report("insertion/previous-run-file-modified/"+s.OutClass, fmt.Sprintf("%s existed before the run, was not produced in this run, and changed from %q to %q", rel, content, got))
+			report("insertion/previous-run-file-modified", fmt.Sprintf("%s existed before the run, was not produced in this run, and changed from %q to %q", rel, content, got))
 		}
 	}
 	// S4: archive entries stay inside the archive
@@ -593,7 +599,7 @@ func runResponses(r *evid.Run, scratch string, names []string) {
 			} else {
 				s.Outcome = "ok"
 			}
-			good := fx.judge(s, err != nil, st, func(sig, what string) { r.Violate(sig, what, s) })
+			good := fx.judge(s, err != nil, st, reporter(r, s))
 			r.Distinct("B|" + s.Kind + "|" + c13Class(it.name) + "|" + stage)
 			r.SampleEvery(ix, 3571, func() any { return s })
 			if !good {
@@ -679,7 +685,7 @@ func runRelVsAbs(r *evid.Run, scratch string) {
 				} else {
 					s.Outcome = "ok"
 				}
-				if !fx.judge(s, err != nil, st, func(sig, what string) { r.Violate(sig, what, s) }) {
+				if !fx.judge(s, err != nil, st, reporter(r, s)) {
 					if fx, err = newRespFixture(fx.root); err != nil {
 						r.Incomplete("harness: cannot rebuild fixture: " + err.Error())
 						return
@@ -691,4 +697,15 @@ func runRelVsAbs(r *evid.Run, scratch string) {
 		}
 	}
 	r.Set("B_relative_vs_absolute_out_counts", st.asMap())
+}
+
+// reporter turns failed oracles into violations and harness problems into an incomplete run.
+func reporter(r *evid.Run, s *Scenario) func(sig, what string) {
+	return func(sig, what string) {
+		if strings.HasPrefix(sig, "harness/") {
+			r.Incomplete(sig + ": " + what)
+			return
+		}
+		r.Violate(sig, what, s)
+	}
 }
